@@ -31,6 +31,7 @@ def check_constants(ctx):
 
 
 def r1(ctx):
+    ctx.mark('crc-table', 'C11.R1')
     ctx.rule('C11.R1', 'every entry of CRC_LOOKUP_TABLE equals c*x^8 mod (x^8+x^7+x^4+x^3+x+1), computed independently by '
              'bitwise polynomial division (256 rows); the table is the whole CRC step function', minimum=256, star=True)
     g = ctx.fb.globals.get('ebusd::CRC_LOOKUP_TABLE')
@@ -215,6 +216,7 @@ def nibble(fn, nid):
 
 
 def r4(ctx):
+    ctx.mark('address-classes', 'C11.R4')
     ctx.rule('C11.R4', 'getMasterPartIndex maps exactly {0:1, 1:2, 3:3, 7:4, F:5} (everything else 0); isMaster requires both '
              'nibbles (addr&0x0F and (addr&0xF0)>>4) to be master parts; getMasterNumber = 5*(part(low)-1)+part(high); the '
              'slave address is master+5 and getMasterAddress/isSlaveMaster subtract 5; isValidAddress excludes SYN and ESC '
